@@ -66,6 +66,13 @@ def run(P, rep, tier):
     # "exactly the nodes that carry an object": what copy / move / delete leave attached decides every later query
     # (node-operation rules of C06.R2: metadata copied only when wanted, destroyed or re-registered, links repaired)
     rep.attempt(c06.r2_node_ops, P, rep, ctx)
+    from .common import r_raw_argument_after_normalisation
+
+    rep.attempt(r_raw_argument_after_normalisation, P, rep, ctx, "C07.R9", {"container.interface", "container.wrappers", "schema.pg", "schema.plugins"})
+    # queries by a parent schema rely on the parent / children index that registration maintains (C06.R1 schema registration)
+    from .tocmodel import r_schema_register as _rsr
+
+    rep.attempt(_rsr, P, rep, ctx, "C07.R10")
     rep.floor("C07.R1", 5)
     rep.floor("C07.R2", 7)
     rep.floor("C07.R3", 3)
